@@ -9,8 +9,13 @@
   exactly `Value::from(expr)`, also as a dotted tail (`C09_unquote`, `C09_unquote_tail`,
   `C09_unquote_expand`); tail flattening agrees with `Value::append` (`C09_tail_flatten*`).
   The well-formedness conditions are exactly the token-level ambiguities of Rust's tokenisation
-  (a free-standing `-` before a literal, `:` before an identifier, the lone `.`), shown necessary by
-  witnesses in that file.
+  (a free-standing `-` before a NUMERIC literal, `:` before a literal or an identifier, the lone
+  `.`), shown necessary by witnesses in that file (`minus_before_number_witness`).  Since the repair
+  509396b of parser.rs a `-` before a string or character literal is the symbol `-`: `(- "s")`,
+  `(- 'a')`, `(- "s" 1)` are well formed and covered (`minus_before_string_tokens`,
+  `C09_expand_minus_before_string`; end to end in LexprModel/Proofs/MacroMinus.lean, imported here:
+  `C09_agree_minus_string/_char/_string_int`, `C09_agree_full_minus_string/_char/_escaped`,
+  `C09_unquote_minus_string`, `C09_unquote_agree_minus_char`).
   Text side, proved (LexprModel/Proofs/MacroText.lean, imported here): `stext d`, the S-expression
   text of a tree, equals the default printer's text of `valueOf d` (`stext_eq_print`), the default
   parser reads it as `valueOf d` (`C09_text`), hence `C09_agree`: for every well-formed tree in the
@@ -46,6 +51,7 @@ import LexprModel.Proofs.MacroText
 import LexprModel.Proofs.MacroText2Ex
 import LexprModel.Proofs.MacroText2Embed
 import LexprModel.Proofs.MacroUnquote
+import LexprModel.Proofs.MacroMinus
 namespace Lexpr
 namespace Macro
 
